@@ -125,7 +125,10 @@ def run(shard, rec, tier, seed):
     hazards = campaign.import_hazards(spec)
     if hazards:
         rec.count("trees-with-non-layered-references")
-    st, ok, err, out = stage.full(files, do_import=False)
+    # the generator's roots are spelled absolutely, as '.', or relative to the working directory in turn
+    spelling = ("absolute", "dot", "absolute", "relative")[ti % 4]
+    rec.seen("root-spellings", spelling)
+    st, ok, err, out = stage.full(files, do_import=False, spelling=spelling)
     if not ok:
         rec.count("base-spec-rejected-by-generator")
         return
